@@ -272,7 +272,7 @@ func (b *Builder) genField(ctx pairCtx, src, dst *SDecl, name, mech string) {
 		hidden := fmt.Sprintf("g%s", name)
 		src.Fields = append(src.Fields, FDecl{Name: hidden, Type: t.Expr})
 		gname := name
-		if b.chance(0.25) {
+		if b.chance(0.35) {
 			gname = caseVariant(b.R, name)
 		}
 		ptrRecv := b.chance(0.4)
@@ -281,9 +281,12 @@ func (b *Builder) genField(ctx pairCtx, src, dst *SDecl, name, mech string) {
 		if ptrRecv {
 			extra = "ptrrecv"
 		}
-		if b.chance(0.3) {
-			// competing field of the same name
+		if b.chance(0.45) {
+			// competing field whose name differs from the getter's only in case (both match under :case:off)
 			t3 := b.typeFor(src.Pkg)
+			if b.chance(0.6) {
+				t3 = t
+			}
 			if gname != name {
 				src.Fields = append(src.Fields, FDecl{Name: name, Type: t3.Expr})
 				extra += "+field"
@@ -1069,4 +1072,45 @@ func Slices() Profile {
 	p.PHooks = 0.05
 	p.MinFields, p.MaxFields = 3, 8
 	return p
+}
+
+// Struct declares a struct type by hand: fields are "Name Type" strings (a single word = embedded).
+func (b *Builder) Struct(pkg, name string, fields ...string) *SDecl {
+	d := &SDecl{Pkg: pkg, Name: name}
+	for _, f := range fields {
+		parts := strings.SplitN(f, " ", 2)
+		if len(parts) == 1 {
+			n := parts[0][strings.LastIndex(parts[0], ".")+1:]
+			d.Fields = append(d.Fields, FDecl{Name: strings.TrimPrefix(n, "*"), Type: parts[0], Embedded: true})
+		} else {
+			d.Fields = append(d.Fields, FDecl{Name: parts[0], Type: parts[1]})
+		}
+	}
+	if pkg == "m" {
+		b.usesM = true
+	}
+	b.decls = append(b.decls, d)
+	return d
+}
+
+// Func adds a function to the setup file (inSetup) or to types.go.
+func (b *Builder) Func(src string, inSetup bool, regName string) {
+	if inSetup {
+		b.funcsS = append(b.funcsS, src)
+	} else {
+		b.funcsT = append(b.funcsT, src)
+	}
+	if regName != "" {
+		b.S.RegFuncs = append(b.S.RegFuncs, regName)
+	}
+}
+
+// N is a shorthand for a notation.
+func N(name string, args ...string) Notation { return Notation{Name: name, Args: args} }
+
+// Manual finishes a hand-written scenario with one Convergen interface holding the given methods.
+func (b *Builder) Manual(methods ...*Method) *Scenario {
+	b.S.Ifaces = append(b.S.Ifaces, &Iface{Name: "Convergen", Converter: true, Methods: methods})
+	b.S.Feature("profile", "corpus")
+	return b.Finish()
 }
